@@ -279,7 +279,9 @@ int parse_repeat(AsmContext *asm_context)
     }
   }
 
-  if (asm_context->list != NULL && asm_context->write_list_file == 1)
+  // List the copies (there are none for .repeat 1).
+  if (asm_context->list != NULL && asm_context->write_list_file == 1 &&
+      (uint32_t)asm_context->address > address_end)
   {
     asm_context->list_output(asm_context, address_end, asm_context->address);
     fprintf(asm_context->list, "\n");
